@@ -642,12 +642,20 @@ class PH(progx.InlineHooks):
         return progx.InlineHooks.mcall(self, recv, m, args, e, ev)
 
 
-def parse_scripts():
+def parse_scripts(extra=0):
+    """extra: the largest small integer the parse loop compares / counts with; the streams then also reach extra + 1 instructions"""
     I1, I2 = ("sym", "INST1"), ("sym", "INST2")
     COMPLETE = ("err", ("enum", "State::Complete", []))
     PERR = ("err", ("enum", "State::OperandExpected", [("sym", "OFF"), ("sym", "IDX")]))
     ok_stream = [("ok", I1), ("ok", I2), COMPLETE]
     base = {"header": ("ok", ("sym", "HEADER")), "stream": ok_stream}
+    if extra >= 2:
+        n = extra + 1
+        long_stream = [("ok", ("sym", "INST%d" % (i + 1))) for i in range(n)] + [COMPLETE]
+        yield "%d instructions, all callbacks continue" % n, dict(base, stream=long_stream)
+        for a in ("stop", "error"):
+            yield "instruction %d of %d answered with %s" % (n, n, a), dict(base, stream=long_stream, **{"instruction%d" % n: a})
+        yield "parse error at instruction %d" % n, dict(base, stream=long_stream[:n - 1] + [PERR])
     yield "all callbacks continue", dict(base)
     yield "empty instruction stream", dict(base, stream=[COMPLETE])
     for a in ("stop", "error"):
@@ -697,7 +705,9 @@ def parse_problems(ctx):
     def build():
         out = []
         f = ctx.rspirv.fn(PAR, "parse", "Parser")
-        for name, sc in parse_scripts():
+        from ..tree import small_literals
+        lits = small_literals(f["body"])
+        for name, sc in parse_scripts(max(lits) if lits else 0):
             inst = "parse(%s)" % name
             h = PH(ctx, sc)
             ev = progx.make(h, "Parser::parse")
